@@ -474,6 +474,8 @@ func runCheck(e entry, tier string, replay string) int {
 	outcomes := map[string]struct{}{}
 	distinct := map[uint64]struct{}{}
 	broken := false
+	shardsWithBounds := 0
+	_ = shardsWithBounds
 	var crashVios []violation
 	for _, r := range runs {
 		if r.died {
@@ -515,6 +517,37 @@ func runCheck(e entry, tier string, replay string) int {
 		m.Assumptions = uniq(append(m.Assumptions, s.Assumptions...))
 		m.Caps = uniq(append(m.Caps, s.Caps...))
 		for k, v := range s.Notes {
+			if k == "preemption_bound_completed_per_program" {
+				// a bound is completed only if every shard completed it: keep the minimum
+				cur, _ := m.Notes[k].(map[string]any)
+				nv, _ := v.(map[string]any)
+				if cur == nil {
+					m.Notes[k] = nv
+					shardsWithBounds = 1
+					continue
+				}
+				shardsWithBounds++
+				rank := func(x any) float64 {
+					switch t := x.(type) {
+					case float64:
+						return t
+					case string:
+						return 1e9
+					}
+					return -1
+				}
+				for name, old := range cur {
+					nw, ok := nv[name]
+					if !ok {
+						delete(cur, name)
+						continue
+					}
+					if rank(nw) < rank(old) {
+						cur[name] = nw
+					}
+				}
+				continue
+			}
 			m.Notes[k] = v
 		}
 		for k, v := range s.Parts {
